@@ -65,7 +65,7 @@ func verifCanary(label string, cond bool) {}
 //@   let peerRecv = uint32(io.streamAt(ref(c), pos+12)) | uint32(io.streamAt(ref(c), pos+13))<<8 | uint32(io.streamAt(ref(c), pos+14))<<16 | uint32(io.streamAt(ref(c), pos+15))<<24
 //@   let peerSend = uint32(io.streamAt(ref(c), pos+16)) | uint32(io.streamAt(ref(c), pos+17))<<8 | uint32(io.streamAt(ref(c), pos+18))<<16 | uint32(io.streamAt(ref(c), pos+19))<<24
 //@   assigns c.ack, io.streamPos(c)
-//@   ensures [C06:minimum] err == nil ==> connInv(c)
+//@   ensures [C05,C06:minimum] err == nil ==> connInv(c)
 //@   ensures [C06:send-fits-peer] err == nil ==> c.ack.SendBufSize <= peerRecv
 //@   ensures [C06:receive-covers-peer] err == nil ==> c.ack.ReceiveBufSize >= peerSend || c.ack.ReceiveBufSize >= ownRecv
 //@   ensures [C06:config-untouched] c.ack != old(c.ack) ==> fresh(c.ack)
